@@ -322,6 +322,12 @@ func (k *Keyed[K, V]) resetRoutineLocked(key K, conds ...func(K, V) bool) (exist
 		v.ctxCancel()
 	}
 	prevExitedCh := v.exitedCh
+	// a pending delayed removal applies to the key, not to the old record
+	pendingRemove := v.deferRemove != nil
+	if pendingRemove {
+		_ = v.deferRemove.Stop()
+		v.deferRemove = nil
+	}
 	routine, data := k.ctorCb(key)
 	v = newRunningRoutine(k, key, routine, data, k.backoffFactory)
 	k.routines[key] = v
@@ -330,6 +336,10 @@ func (k *Keyed[K, V]) resetRoutineLocked(key K, conds ...func(K, V) bool) (exist
 	} else {
 		// wait for the previous routine to exit when starting later
 		v.exitedCh = prevExitedCh
+	}
+	if pendingRemove {
+		// the key is still scheduled for removal (the delay starts again)
+		v.remove()
 	}
 
 	return true, true
